@@ -54,14 +54,14 @@ def c08Hist (flags : List Bool) (calls : List (UInt16 × Option Bytes)) : List (
 def c08Model (flags : List Bool) (calls : List (UInt16 × Option Bytes)) : List PayObs :=
   (payloadHist {} (c08Hist flags calls)).map PayObs.ofFrags
 
-def c09Calls (avc : Bool) : Bytes → List (Option Bytes) → List (C09.DepObs Bool)
+def c09Calls (zero avc : Bool) : Bytes → List (Option Bytes) → List (C09.DepObs Bool)
   | _, [] => []
   | buf, p :: ps =>
     let pl := p.getD []
-    let (r, buf') := unmarshal avc buf pl
-    let fr := (unmarshal avc [] pl).1
+    let (r, buf') := unmarshalZ zero avc buf pl
+    let fr := (unmarshalZ zero avc [] pl).1
     { res := r.coarse, md := avc, head := isPartitionHead pl, tail0 := isPartitionTail false pl,
       tail1 := isPartitionTail true pl, auxPanic := false, freshSame := r.coarse == fr.coarse,
-      twinSame := true } :: c09Calls avc buf' ps
+      twinSame := true } :: c09Calls zero avc buf' ps
 
 end Rtp.Model.H264.Obs
